@@ -105,6 +105,11 @@ Definition entry_dispatch (F : float_ops) (fn : string) (j : json) (e : cexpr) :
       JObj [("r", match try_eval_constant_bool e with Some b => JBool b | None => JNull end)]
     else if String.eqb fn "workgroup_dim" then
       JObj [("r", JNum (mod_workgroup_dim e)); ("evaluated", JBool (match eval_const_u32 e with Some _ => true | None => false end))]
+    else if String.eqb fn "mod_vec_component" then
+      match e with
+      | CBin op (CLit l) (CLit r) => JObj [("r", jopt_lit (mod_vec_component op l r))]
+      | _ => JObj [("err", JStr "shape")]
+      end
     else JObj [("err", JStr "fn")].
 
 (* the WGSL-specified outcome of the same request: "as" = "ty" (value used at type ty),
